@@ -1060,9 +1060,10 @@ class PolyhedralTermList(TermList):  # noqa: WPS338
             # 3 : Problem appears to be unbounded.
             # 4 : Numerical difficulties encountered.
             res = linprog(c=objective, A_ub=a_opt, b_ub=b_opt, bounds=(None, None))  # ,options={'tol':0.000001})
-            if res["status"] not in {0, 2}:
+            if res["status"] != 0:
                 # The objective is bounded by the relaxed row itself, so "unbounded" can only be an
-                # artefact of the solver's presolve on badly scaled rows: solve again without it.
+                # artefact of the solver's presolve on badly scaled rows, and presolve also reports
+                # some feasible badly scaled systems as infeasible: solve again without it.
                 res = linprog(
                     c=objective, A_ub=a_opt, b_ub=b_opt, bounds=(None, None), options={"presolve": False}
                 )
@@ -1148,6 +1149,9 @@ class PolyhedralTermList(TermList):  # noqa: WPS338
             b_opt = np.concatenate((b_l, np.array([b_temp])))
 
             res = linprog(c=objective, A_ub=a_opt, b_ub=b_opt, bounds=(None, None))  # ,options={'tol':0.000001})
+            if res["status"] != 0:
+                # presolve reports some feasible badly scaled systems as infeasible
+                res = linprog(c=objective, A_ub=a_opt, b_ub=b_opt, bounds=(None, None), options={"presolve": False})
             b_temp -= 1
             if res["status"] == 2:
                 is_refinement = False
@@ -1190,6 +1194,9 @@ class PolyhedralTermList(TermList):  # noqa: WPS338
         assert n == len(b)
         objective = np.zeros((1, m))
         res = linprog(c=objective, A_ub=a, b_ub=b, bounds=(None, None))  # ,options={'tol':0.000001})
+        if res["status"] != 0:
+            # presolve reports some feasible badly scaled systems as infeasible
+            res = linprog(c=objective, A_ub=a, b_ub=b, bounds=(None, None), options={"presolve": False})
         # Linprog's status values
         # 0 : Optimization proceeding nominally.
         # 1 : Iteration limit reached.
